@@ -60,14 +60,7 @@ func outcomeKey(r *hook.Resp) string {
 }
 
 func flagsDesc(req *hook.Req) string {
-	var p []string
-	if req.LeftRec {
-		p = append(p, "-support-left-recursion")
-	}
-	if req.OptGrammar {
-		p = append(p, "-optimize-grammar")
-	}
-	return strings.Join(p, " ")
+	return strings.Join(argvOf(req), " ")
 }
 
 // explore runs every order with at most bound deviations and returns the
@@ -372,6 +365,63 @@ func runC19(c *ShardCtx) {
 			}
 		}
 	}
+	// emission family: what the builder WRITES (tables, names, blocks, literals) under every
+	// combination of the generation flags: grammars with several different classes, literals,
+	// labels, blocks of all kinds, recovery, a left-recursive rule; and every body of the cross
+	// family (cross.go) up to 2 nodes. A map consulted while emitting shows as a site; the bytes
+	// are then compared for every explored order.
+	{
+		var all []hook.Req
+		for m := 0; m < 32; m++ {
+			all = append(all, hook.Req{Optimize: m&1 != 0, BasicLatin: m&2 != 0, OptGrammar: m&4 != 0, LeftRec: m&8 != 0, Nolint: m&16 != 0})
+		}
+		cl := func(inv, ic bool, items ...string) *peg.Expr { return peg.Cls(inv, ic, items...) }
+		rich := []*peg.Grammar{
+			{Rules: []*peg.Rule{
+				{Name: "S", Expr: peg.Action(0, peg.Seq(peg.Label("x", cl(false, false, "a", "b")), cl(false, true, "c-d"), cl(true, false, "e"), cl(false, false, `\pL`), lit("x"), peg.LitI("y"), peg.Label("y", peg.Ref("A")), peg.Ref("B"), peg.Ref("E")))},
+				{Name: "A", Display: "an A", Expr: peg.Choice(cl(false, false, "a", "b"), cl(false, false, "0-9"), cl(false, true, "a-f"))},
+				{Name: "B", Expr: peg.Seq(peg.Action(0, peg.Label("z", cl(false, true, "a-f"))), peg.AndCode(0), peg.NotCode(0), peg.StateCode(0), peg.Recover(peg.Choice(lit("q"), peg.Throw("l")), cl(false, false, "x-z"), "l"))},
+				{Name: "E", Expr: peg.Choice(peg.Seq(peg.Ref("E"), cl(false, false, "+", "-"), peg.Ref("A")), peg.Ref("A"))},
+			}},
+			{Rules: []*peg.Rule{
+				{Name: "S", Expr: peg.Seq(peg.Star(peg.Choice(peg.Ref("W"), peg.Ref("N"), peg.Ref("P"))), peg.Not(peg.Any()))},
+				{Name: "W", Expr: peg.Plus(cl(false, true, "a-z", "_"))}, {Name: "N", Expr: peg.Plus(cl(false, false, "0-9"))}, {Name: "P", Expr: cl(false, false, " ", "\t", "\n", ",", ";")},
+				{Name: "X1", Expr: cl(true, true, "a-z")}, {Name: "X2", Expr: cl(false, false, `\p{Nd}`, "é")}, {Name: "X3", Expr: cl(false, false, "a-z", "_")},
+			}},
+		}
+		for _, g := range rich {
+			if c.Expired("emission family") {
+				return
+			}
+			g = g.Clone()
+			peg.Renumber(g, 1)
+			peg.AssignArgs(g)
+			one(g, all)
+		}
+		for size := 1; size <= 2; size++ {
+			for _, body := range crossBodies(size) {
+				if c.Expired("emission family") {
+					return
+				}
+				for _, lr := range []bool{false, true} {
+					var fs []hook.Req
+					for _, f := range all[:16] {
+						if f.LeftRec == lr {
+							fs = append(fs, f)
+						}
+					}
+					hasR := false
+					for _, r := range peg.RefsOf(body) {
+						hasR = hasR || r == "R"
+					}
+					if lr && !hasR {
+						continue
+					}
+					one(crossGrammar(body, lr), fs)
+				}
+			}
+		}
+	}
 	// optimizer family
 	optSet := []hook.Req{{OptGrammar: true}, {OptGrammar: true, AltEntry: []string{"B"}}}
 	leafs := []*peg.Expr{lit("a"), peg.Choice(lit("a"), lit("b")), peg.Seq(lit("a"), lit("b")), peg.Cls(false, false, "a", "b")}
@@ -401,6 +451,15 @@ func runC19(c *ShardCtx) {
 
 func argvOf(fl *hook.Req) []string {
 	var a []string
+	if fl.Optimize {
+		a = append(a, "-optimize-parser")
+	}
+	if fl.BasicLatin {
+		a = append(a, "-optimize-basic-latin")
+	}
+	if fl.Nolint {
+		a = append(a, "-nolint")
+	}
 	if fl.LeftRec {
 		a = append(a, "-support-left-recursion")
 	}
